@@ -1452,6 +1452,11 @@ class AdvancedTag(object):
         # Get all attributes as a tuple (name<str>, value<str>)
         for name, val in self._attributes.items():
             # Get all attributes
+            if val is None:
+                # Attribute given without a value ( e.x. <div foo> ) -- includes only the name
+                attributeStrings.append(name)
+                continue
+
             if val:
                 val = tostr(val)
 
@@ -1570,7 +1575,7 @@ class AdvancedTag(object):
 
                 This is suitable for passing back into AdvancedTag when creating a new tag.
         '''
-        return [ (tostr(name)[:], tostr(value)[:]) for name, value in self._attributes.items() ]
+        return [ (tostr(name)[:], (None if value is None else tostr(value)[:])) for name, value in self._attributes.items() ]
 
 
     def getAttributesDict(self):
@@ -1583,7 +1588,7 @@ class AdvancedTag(object):
               @return <dict ( str(name), str(value) )> - A dict of attrName to attrValue , all as strings and copies.
         '''
 
-        return { tostr(name)[:] : tostr(value)[:] for name, value in self._attributes.items() }
+        return { tostr(name)[:] : (None if value is None else tostr(value)[:]) for name, value in self._attributes.items() }
 
 
     def setAttribute(self, attrName, attrValue):
